@@ -15,7 +15,7 @@ EXTENDS Naturals, Sequences, FiniteSets, TLC
 CONSTANTS
     R,          \* number of rules in a rule set
     RetSet,     \* what a rule body does when invoked (subset of Rets)
-    DepSet,     \* subset of {"met", "missing", "missing-group"}
+    DepSet,     \* subset of {"met", "missing", "missing-group", "missing-both"}
     EnSet,      \* subset of BOOLEAN
     NKeys,      \* keys are drawn from 1..NKeys (rules may share a key)
     NMods       \* modules 1..NMods (rules may share a module)
